@@ -159,7 +159,9 @@ TInventory ==
 
 Handled == {"reset", "netAtClose", "blockedAtClose", "closeCall", "closeQuit",
             "fin", "sExit", "rExit", "closeDone", "closeRet", "sendRet",
-            "recvRet", "postSend", "postRecv", "peerCheck", "inventory"}
+            "recvRet", "postSend", "postRecv", "peerCheck", "inventory",
+            "closeStuck"}   \* closeStuck: no action explains a Close call
+                            \* that does not return
 
 TSkip == /\ l <= Len(Trace)
          /\ Ev.ev \notin Handled
